@@ -11,12 +11,18 @@ def setup():
     print(out)
     ok2, out2 = wv.coq_make([f[:-2] + ".vo" for f in wv.coq_files()])
     print(out2[-3000:])
+    if not ok2:
+        # a theorem file that does not build makes ITS check report a violation; setup itself only needs the tool chain
+        print("setup: some .vo files were not produced (reported by the corresponding checks)")
+    ok3 = os.path.exists(os.path.join(wv.COQ, "Extract.vo"))
     wv.build_model_driver()
-    for kw in ({}, {"buf": 4, "hbuf": 4}):
+    import os as _os
+    for kw in ({}, {"buf": 4, "hbuf": 4}, {"buf": 4, "hbuf": 4, "extra_flags": ["-include", _os.path.join(wv.HARNESS, "shim.h")]}, {"kind": "cli"}):
         exe, err = wv.build_impl(**kw)
         if exe is None:
             print(err)
-    return 0 if ok and ok2 else 1
+            ok3 = False
+    return 0 if ok and ok3 else 1
 
 
 def main():
